@@ -81,6 +81,20 @@ def run(ctx):
             if nh <= 3:
                 ctx.violation('the text built for profile %s depends on the profiles processed before it' % profs[-1][0],
                               {'profiles': profs, 'after_others': last_in_seq, 'alone': alone, 'first_of_reversed_order': first_in_rev})
+    # a profile built alone in a process of its own: state that is set once per process (a cache filled by the first
+    # directive that runs) is invisible as long as every history shares one process
+    kf = 40 if ctx.tier == 'quick' else 400
+    nf = 0
+    for i in range(min(kf, len(metas))):
+        fresh = ctx.run_go('hist', [ops[3 * i + 1]])[0]
+        ctx.cov['evaluations'] += 1
+        if fresh != out[3 * i + 1]:
+            nf += 1
+            if nf <= 3:
+                ctx.violation('the text built for profile %s alone in a fresh process differs from the text built for it, alone as well, in a '
+                              'process that built other profiles before' % metas[i][-1][0],
+                              {'profile': metas[i][-1], 'fresh_process': fresh, 'shared_process': out[3 * i + 1]})
+    ctx.cov['search']['fresh_process_runs'] = {'runs': min(kf, len(metas)), 'differing': nf}
     for i in range(len(again)):
         if again[i] != out[i]:
             ctx.violation('same history, different output in a second process (map iteration order?)', {'op': ops[i], 'run1': out[i], 'run2': again[i]})
